@@ -150,6 +150,10 @@ func (b *BinaryExpression) SQL() string {
 
 	// Handle IS NULL / IS NOT NULL (right side is NULL literal)
 	if upperOp == "IS NULL" || upperOp == "IS NOT NULL" {
+		// the parser records x IS NOT NULL as operator "IS NULL" with Not set
+		if b.Not && upperOp == "IS NULL" {
+			upperOp = "IS NOT NULL"
+		}
 		return fmt.Sprintf("%s %s", left, upperOp)
 	}
 
